@@ -1376,7 +1376,7 @@ pub fn run(args: &Args) {
     let mut cx = Ctx {
         sum: Summary::new("C08", "controlled schedules (real threads parked at every schedule point of the zipora_verif hooks): corpus witnesses, every interleaving of two threads x one operation on a pre-filled free list, every interleaving of short pop/push pairs, then random programs of 2-3 threads (alloc / free k-th held / owner overwrites the link word / foreign malloc) under burst-biased random schedules, block size and arena size varied so that exhaustion and reuse occur; free-running stress with an ownership table for every pool; a case is non-trivial when at least two threads execute operations; distinct = distinct (cell, programs, schedule)"),
         shards: CoqShards::new(HEADER, 250),
-        coq_budget: if args.thorough { 6000 } else { 1200 },
+        coq_budget: if args.thorough { 6000 } else { 1500 },
         out: args.out.clone(), child_seq: 0, thorough: args.thorough,
     };
     if let Some(f) = &args.replay {
@@ -1415,7 +1415,7 @@ pub fn run(args: &Args) {
         let p1 = vec![Op::Alloc, Op::Alloc, Op::Free(0), Op::Alloc];
         let mut all = vec![];
         interleavings(5, if args.thorough { 14 } else { 9 }, &mut vec![], &mut all);
-        let stride = if args.thorough { 1 } else { (all.len() / 220).max(1) };
+        let stride = if args.thorough { 1 } else { (all.len() / 500).max(1) };
         for (i, il) in all.iter().enumerate() {
             if i % stride != 0 { continue; }
             let mut sched = pre.clone();
@@ -1427,7 +1427,7 @@ pub fn run(args: &Args) {
         cx.sum.dist_max("enumerated_interleavings", (all.len() / stride) as u64);
     }
     // 3. random programs and schedules
-    let nrand = if args.thorough { 6000 } else { 420 };
+    let nrand = if args.thorough { 6000 } else { 800 };
     for k in 0..nrand {
         let n = if rng.chance(1, 3) { 3 } else { 2 };
         let slots = *rng.pick(&[2usize, 3, 4, 6, 8]);
